@@ -608,13 +608,16 @@ impl<T: Send, R: ReceiverStore<T>> RendezvousShared<T, R> {
   /// and was removed (the owner keeps its payload); `false` if the handoff
   /// already committed (delivery stands).
   pub(crate) fn cancel_sender(&self, state_ptr: *const AtomicU8, state: &AtomicU8) -> bool {
+    // Decide under the lock: the peer pops this record and commits the handoff
+    // (`fulfill_sender`) with the lock held and without looking at `state`, so a
+    // cancel decided outside the lock could win after the item was already taken.
+    let mut core = self.core.lock();
     if state
       .compare_exchange(WAITING, CANCELLED, Ordering::SeqCst, Ordering::SeqCst)
       .is_err()
     {
       return false;
     }
-    let mut core = self.core.lock();
     if let Some(pos) = core.sender_waiters.iter().position(|r| r.state == state_ptr) {
       core.sender_waiters.remove(pos);
     }
@@ -625,13 +628,16 @@ impl<T: Send, R: ReceiverStore<T>> RendezvousShared<T, R> {
   /// `WAITING` and was removed; `false` if a sender already committed the
   /// handoff (the item now sits in the receiver's `dest`).
   pub(crate) fn cancel_receiver(&self, state_ptr: *const AtomicU8, state: &AtomicU8) -> bool {
+    // Decide under the lock, for the same reason as `cancel_sender`: a sender that
+    // has popped this record writes into `dest` and stores `DONE` unconditionally.
+    let mut core = self.core.lock();
     if state
       .compare_exchange(WAITING, CANCELLED, Ordering::SeqCst, Ordering::SeqCst)
       .is_err()
     {
       return false;
     }
-    self.core.lock().receivers.remove_receiver(state_ptr);
+    core.receivers.remove_receiver(state_ptr);
     true
   }
 }
